@@ -1,6 +1,7 @@
 from .common import COMMON_ASSUME
 
 CFG = {
+    "extra_harness": "harness-default",   # rpm-rs built with its default cargo features (no bzip2): feature-dependent behaviour
     "props_module": "RpmVerif.Props.C15",
     "required_theorems": ["RpmVerif.C15.evr_roundtrip", "RpmVerif.C15.evr_normalized_roundtrip", "RpmVerif.C15.evr_normalized_eq",
                           "RpmVerif.C15.evr_normalized_has_epoch", "RpmVerif.C15.evr_roundtrip_iff",
